@@ -552,3 +552,64 @@ Proof.
   apply (roundtrip_preset pmt errmt Hs Hf Hk Ha accept ct preset k hdr H).
   destruct k; simpl; auto 6.
 Qed.
+
+(* ------------------------------------------------------------------ the writer *)
+
+(* after the first WriteHeader neither a header set later nor a later WriteHeader/Write
+   changes what the client reads *)
+Lemma writer_frozen w st h st2 sniff :
+  let w1 := w_write_header st w in
+  wire sniff (w_write_header st2 (w_set_live h w1)) = wire sniff w1
+  /\ wire sniff (w_write (w_set_live h w1)) = wire sniff w1.
+Proof. unfold w_write, w_write_header, w_set_live, wire. destruct w as [l [[s0 h0]|]]; simpl; split; reflexivity. Qed.
+
+(* encoder first, then the status: the client reads the status and the Content-Type that
+   ResponseEncoder computed *)
+Lemma send_wire pmt errmt cenc accept ct w st v k b w' :
+  sent w = None ->
+  send pmt errmt cenc accept ct w st v = (Some k, b, w') ->
+  exists hdr, response_encoder pmt errmt accept ct (live w) = (Some k, hdr) /\ sent w' = Some (st, hdr).
+Proof.
+  intros Hs H. unfold send in H.
+  destruct (response_encoder pmt errmt accept ct (live w)) as [k0 h] eqn:R.
+  destruct k0 as [k0|]; [|discriminate].
+  exists h. unfold w_write, w_write_header, w_set_live in H. simpl in H. rewrite Hs in H. simpl in H.
+  destruct (encode cenc k0 v); injection H as <- _ <-; split; reflexivity.
+Qed.
+
+Lemma error_roundtrip pmt errmt cenc :
+  parser_stable pmt -> parser_fixes_supported pmt ->
+  forall accept ct g k b w',
+    error_encoder pmt errmt cenc accept ct (w_new []) g = (Some k, b, w') ->
+    exists hdr, sent w' = Some (http_status (error_response g), hdr) /\ response_decoder pmt hdr = k.
+Proof.
+  intros Hs Hf accept ct g k b w' H. unfold error_encoder in H.
+  apply send_wire in H as (hdr & R & S); [|reflexivity].
+  exists hdr. split; [exact S|]. exact (roundtrip_fresh pmt errmt Hs Hf accept ct k hdr R).
+Qed.
+
+(* status first: the Content-Type the client reads is whatever was on the writer before *)
+Lemma status_first_wire pmt errmt cenc accept ct w st v k b w' sniff :
+  sent w = None ->
+  send_status_first pmt errmt cenc accept ct w st v = (k, b, w') ->
+  wire sniff w' = Some (st, if beq (live w) [] then sniff else live w).
+Proof.
+  intros Hs H. unfold send_status_first in H.
+  unfold w_write_header in H. rewrite Hs in H. cbn [live sent] in H.
+  destruct (response_encoder pmt errmt accept ct (live w)) as [k0 h].
+  destruct k0 as [k0|].
+  - destruct (encode cenc k0 v); injection H as _ _ <-; reflexivity.
+  - injection H as _ _ <-. reflexivity.
+Qed.
+
+Definition w_sniffed : bytes := Eval vm_compute in bs "text/plain; charset=utf-8".
+
+Lemma status_first_witness :
+  let g := EService (unsupported_error []) in
+  exists k b w',
+    send_status_first cut_parser (fun _ => []) toy_enc app_xml [] (w_new []) (http_status (error_response g)) (VStruct 0) = (Some k, Some b, w')
+    /\ k = KXml
+    /\ wire w_sniffed w' = Some (415, w_sniffed)
+    /\ response_decoder cut_parser w_sniffed = KText
+    /\ decode toy_dec KText SStruct b = None.
+Proof. do 3 eexists. repeat split; vm_compute; reflexivity. Qed.
